@@ -361,7 +361,7 @@ func TestC14(t *testing.T) {
 	if os_only_regress() {
 		return
 	}
-	search(t, rec, "history", budget(1200, 48000), 30, func(rt *rapid.T) {
+	search(t, rec, "history", budget(1200, 320000), 30, func(rt *rapid.T) {
 		n := rapid.Int64Range(0, 6).Draw(rt, "formSize")
 		m := rapid.Int64Range(0, n).Draw(rt, "minToPass")
 		w := newC14World(c, n, m, rapid.IntRange(6, 10).Draw(rt, "providers"), rapid.IntRange(0, 2).Draw(rt, "sameDomain"), rapid.IntRange(0, 2).Draw(rt, "idle"), rapid.IntRange(0, 2).Draw(rt, "unregistered"),
